@@ -209,8 +209,12 @@ public:
 
 		// can't std::forward<Args>(args) in GetEvent::getEvent because the pass by value arguments will be moved to getEvent
 		// then the other std::forward<Args>(args) to directDispatch will get empty values.
+		// The event must be obtained in a statement of its own: the order in which the arguments of a call are evaluated
+		// is unspecified, std::forward<Args>(args) initializing the by value parameters of directDispatch could move
+		// the arguments away before getEvent reads them.
+		const auto e = GetEvent::getEvent(args...);
 		directDispatch(
-			GetEvent::getEvent(args...),
+			e,
 			std::forward<Args>(args)...
 		);
 	}
@@ -222,8 +226,10 @@ public:
 
 		using GetEvent = typename SelectGetEvent<Policies_, EventType_, HasFunctionGetEvent<Policies_, T &&, Args...>::value>::Type;
 
+		// See the comment in the other dispatch.
+		const auto e = GetEvent::getEvent(std::forward<T>(first), args...);
 		directDispatch(
-			GetEvent::getEvent(std::forward<T>(first), args...),
+			e,
 			std::forward<Args>(args)...
 		);
 	}
